@@ -96,6 +96,9 @@ type portal struct {
 	params        [][]byte
 	paramFormats  []int16
 	resultFormats []int16
+	// a portal executed with a row limit keeps its result and position (PortalSuspended)
+	res *pgResult
+	pos int
 }
 
 // result of executing one statement
@@ -219,12 +222,31 @@ func (db *PgDB) Serve(conn io.ReadWriter) error {
 				failed = true
 				continue
 			}
-			db.emitExtras(be)
-			res := db.exec(p.stmt.query, p.params, p.paramFormats)
+			if p.res == nil {
+				db.emitExtras(be)
+				p.res = db.exec(p.stmt.query, p.params, p.paramFormats)
+			}
+			res := p.res
 			if res.err != "" {
 				failed = true
 			}
-			db.sendResult(be, res, p.resultFormats, false)
+			if m.MaxRows > 0 && res.err == "" && res.fields != nil {
+				// a slice of the rows; the portal is suspended when the limit was reached
+				part := *res
+				end := min(len(res.rows), p.pos+int(m.MaxRows))
+				part.rows = res.rows[p.pos:end]
+				suspended := end-p.pos == int(m.MaxRows)
+				p.pos = end
+				db.sendRows(be, &part, p.resultFormats)
+				if suspended {
+					be.Send(&pgproto3.PortalSuspended{})
+				} else {
+					be.Send(&pgproto3.CommandComplete{CommandTag: []byte(fmt.Sprintf("SELECT %d", len(part.rows)))})
+				}
+			} else {
+				db.sendResult(be, res, p.resultFormats, false)
+				p.res, p.pos = nil, 0
+			}
 		case *pgproto3.Sync:
 			failed = false
 			be.Send(&pgproto3.ReadyForQuery{TxStatus: 'I'})
@@ -286,18 +308,22 @@ func (db *PgDB) sendResult(be *pgproto3.Backend, res *pgResult, rf []int16, with
 			applyFormats(fields, rf)
 			be.Send(&pgproto3.RowDescription{Fields: fields})
 		}
-		for _, row := range res.rows {
-			out := make([][]byte, len(row))
-			for i, cell := range row {
-				if cell == nil {
-					continue
-				}
-				out[i] = encodeCell(res.cols[i], cell, formatFor(rf, i))
-			}
-			be.Send(&pgproto3.DataRow{Values: out})
-		}
+		db.sendRows(be, res, rf)
 	}
 	be.Send(&pgproto3.CommandComplete{CommandTag: []byte(res.tag)})
+}
+
+func (db *PgDB) sendRows(be *pgproto3.Backend, res *pgResult, rf []int16) {
+	for _, row := range res.rows {
+		out := make([][]byte, len(row))
+		for i, cell := range row {
+			if cell == nil {
+				continue
+			}
+			out[i] = encodeCell(res.cols[i], cell, formatFor(rf, i))
+		}
+		be.Send(&pgproto3.DataRow{Values: out})
+	}
 }
 
 // encodeCell renders a stored (canonical) cell in a result format.
